@@ -150,6 +150,8 @@ fn main() {
     quiet_panics();
     let mut rep = Report::new("C10", &args);
     let thorough = args.tier == Tier::Thorough;
+    // deviation budget: at most one spurious compare_exchange_weak failure per execution
+    SPURIOUS_BUDGET.store(if thorough { 1 } else { 0 }, std::sync::atomic::Ordering::Relaxed);
     if let Some(p) = &args.replay {
         let doc = read_replay(p);
         if doc["engine"] == "vsched" {
